@@ -2,33 +2,12 @@
   Line-protocol driver:  `lake env lean --run Driver/Main.lean < ops.txt`
   One request per line, one reply per line.  Unknown / malformed → `bad-op`.
 -/
-import NautilusVerif.Model.Dyadic
-import NautilusVerif.Model.Shift
+import NautilusVerif.Driver.ShiftD
+import NautilusVerif.Driver.Prior
+import NautilusVerif.Driver.ResampleD
 open NautilusVerif
 
-def parseInts (ws : List String) : Option (List Int) := ws.mapM String.toInt?
-
-def dyPairs : List Int → Option (List Dy)
-  | [] => some []
-  | m :: e :: rest => (dyPairs rest).map (fun t => (⟨m, e⟩ : Dy) :: t)
-  | _ => none
-
-def handleShift : List String → Option String
-  | ["shift1", inv, cm, ce, xm, xe] => do
-      let [inv, cm, ce, xm, xe] ← parseInts [inv, cm, ce, xm, xe] | none
-      some (Shift.F.shift1 ⟨cm, ce⟩ (inv != 0) ⟨xm, xe⟩).toString
-  | ["shift1legacy", inv, cm, ce, xm, xe] => do
-      let [inv, cm, ce, xm, xe] ← parseInts [inv, cm, ce, xm, xe] | none
-      some (Shift.F.shift1Legacy ⟨cm, ce⟩ (inv != 0) ⟨xm, xe⟩).toString
-  | "centre" :: rest => do
-      let xs ← parseInts rest
-      let ds ← dyPairs xs
-      match Shift.F.centre ds with
-      | some c => some c.toString
-      | none => some "none"
-  | _ => none
-
-def handlers : List (List String → Option String) := [handleShift]
+def handlers : List (List String → Option String) := [ShiftDriver.handle, PriorDriver.handle, ResampleDriver.handle]
 
 def step (line : String) : String :=
   let ws := (line.trimAscii.toString.splitOn " ").filter (· ≠ "")
